@@ -306,9 +306,9 @@ fn esc(s: &str) -> String {
 
 fn gen_string(rng: &mut Rng, ascii_only: bool) -> String {
     let pool: Vec<&str> = if ascii_only {
-        vec!["a", "b", "Z", " ", "x", "q", "\"", "!", "~", "k"]
+        vec!["a", "b", "Z", " ", "x", "q", "\"", "!", "~", "k", "\\"]
     } else {
-        vec!["a", "b", "Z", " ", "x", "\"", "é", "ß", "漢", "😀", "!", "k"]
+        vec!["a", "b", "Z", " ", "x", "\"", "é", "ß", "漢", "😀", "!", "k", "\\"]
     };
     let n = rng.below(9);
     (0..n).map(|_| *rng.pick(&pool)).collect()
@@ -393,6 +393,13 @@ pub fn gen_cases(cfg: &RunCfg) -> Vec<Case> {
         let olen = 2 * (if k < 6 { k } else { rng.below(9) });
         let ohex: String = (0..olen).map(|_| *rng.pick(&"0123456789ABCDEF".chars().collect::<Vec<_>>())).collect();
         value("OCTET STRING", &format!("'{ohex}'H"), format!("( hstr {} octet )", hex(&ohex)), "octet-hstring", &mut cases);
+        // X.680 23.3: a bstring / hstring that does not fill its last octet stands for the octets with zero bits added at the end
+        let plen = 1 + 2 * rng.below(4);
+        let phex: String = (0..plen).map(|_| *rng.pick(&"0123456789ABCDEF".chars().collect::<Vec<_>>())).collect();
+        value("OCTET STRING", &format!("'{phex}'H"), format!("( hstr {} octet )", hex(&phex)), "octet-hstring-partial-last-octet", &mut cases);
+        let pblen = 8 * rng.below(3) + 1 + rng.below(7);
+        let pbits: String = (0..pblen).map(|_| if rng.chance(1, 2) { '1' } else { '0' }).collect();
+        value("OCTET STRING", &format!("'{pbits}'B"), format!("( bstr {} octet )", hex(&pbits)), "octet-bstring-partial-last-octet", &mut cases);
         let oblen = 8 * rng.below(5);
         let obits: String = (0..oblen).map(|_| if rng.chance(1, 2) { '1' } else { '0' }).collect();
         value("OCTET STRING", &format!("'{obits}'B"), format!("( bstr {} octet )", hex(&obits)), "octet-bstring", &mut cases);
@@ -960,6 +967,59 @@ pub fn run(cfg: &RunCfg) -> Report {
                         }
                     }
                 }
+            }
+        }
+    }
+    // the TypeScript backend prints character string values through `string_literal`: model `Ts.Strings.stringLiteral`, and the
+    // printed literal has to read (as an ECMAScript literal) as the source string
+    {
+        let str_cases: Vec<usize> = (0..cases.len()).filter(|i| cases[*i].kind == "cstring" && cases[*i].src.starts_with("( cstring ") && matches!(cases[*i].site, Site::Const(_))).collect();
+        for chunk in str_cases.chunks(100) {
+            let text = format!("C07-Mod DEFINITIONS AUTOMATIC TAGS ::= BEGIN\n{SUPPORT}{}\nEND\n", chunk.iter().map(|i| cases[*i].asn.clone()).collect::<Vec<_>>().join("\n"));
+            match compile_ts(&[text]) {
+                Outcome::Ok { generated, .. } => {
+                    let mut ts_reqs = Vec::new();
+                    let mut ts_meta = Vec::new();
+                    for i in chunk {
+                        let Site::Const(n) = &cases[*i].site else { continue };
+                        let name = n.to_lowercase();
+                        let needle = format!("export const {name} = ");
+                        let Some(pos) = generated.find(&needle) else {
+                            rep.count("typescript:string-constant-not-found");
+                            continue;
+                        };
+                        // the rest of the line (a literal holds no raw line feed: it is printed escaped)
+                        let rest = &generated[pos + needle.len()..];
+                        let end = rest.find('\n').unwrap_or(rest.len());
+                        let obs = rest[..end].trim_end().to_string();
+                        let srcstr = cases[*i].src.trim_start_matches("( cstring ").trim_end_matches(" )").to_string();
+                        rep.count("typescript:string-constant");
+                        ts_reqs.push(format!("tsstr {} {}", srcstr, hex(&obs)));
+                        ts_meta.push((*i, obs));
+                    }
+                    match run_driver(&ts_reqs) {
+                        Ok(ans) => {
+                            for (a, (i, obs)) in ans.iter().zip(ts_meta.iter()) {
+                                let case_json = json!({"asn1": cases[*i].asn, "src": cases[*i].src, "observed": obs, "const": null, "default_fn": null, "kind": "typescript-string-constant"});
+                                if a == "bad-request" {
+                                    rep.harness_errors.push(format!("bad tsstr request for {}", cases[*i].asn));
+                                    continue;
+                                }
+                                let model = a.split(' ').find_map(|t| t.strip_prefix("model=")).unwrap_or("");
+                                let spec = a.split(' ').find_map(|t| t.strip_prefix("spec=")).unwrap_or("");
+                                let agree = !model.starts_with("differ");
+                                if !agree {
+                                    rep.disagree(json!({"case": case_json.clone(), "model": model, "model_of": "Ts.Strings.stringLiteral (typescript string_literal)"}));
+                                }
+                                if let Some(msg) = spec.strip_prefix("bad:") {
+                                    rep.unsat("", agree, json!({"why": format!("TypeScript constant `{obs}`: {msg}"), "case": case_json}));
+                                }
+                            }
+                        }
+                        Err(e) => rep.harness_errors.push(e),
+                    }
+                }
+                _ => rep.count("typescript:string-chunk-did-not-compile"),
             }
         }
     }
